@@ -229,6 +229,33 @@ def is_pow2(q):
 def trunc(q): return int(q) if q >= 0 else -int(-q)
 
 
+def alpha_routes(chk):
+    """the delay a step 'sees' is the configured one whichever way it was configured: TrainableDist.create(delay=d, ...) and get_alpha(d) on an existing distribution
+    (the route of graph.init -> init_inputs -> init_delays / params) give the same alpha = clip((d - min) / (max - min), 0, 1); hence the same apply_delay"""
+    import jax.numpy as jnp
+    from rex import base as rb
+    from fractions import Fraction as F_
+    r = chk.rnd
+    for i in range(40):
+        mn = F_(r.choice([0, 0, 1, 2, 3, 5]), 64); span = F_(r.choice([1, 2, 4, 8, 16]), 64); mx = mn + span
+        d = mn + span * F_(r.choice([0, 1, 2, 3, 4, 5, 6, 7, 8]), 8)
+        want = float((d - mn) / span)
+        case = dict(min=str(mn), max=str(mx), delay=str(d))
+        chk.case(("alpha-route", str(mn), str(mx), str(d)), ["alpha-routes"] + (["min>0"] if mn > 0 else []), None); chk.traces_impl += 1
+        try:
+            a1 = float(rb.TrainableDist.create(delay=float(d), min=float(mn), max=float(mx)).alpha)
+            other = rb.TrainableDist.create(delay=float(mn), min=float(mn), max=float(mx))
+            a2 = float(jnp.asarray(other.get_alpha(float(d))))
+            a3 = float(jnp.asarray(other.get_alpha(float(mx + span)))); a0 = float(jnp.asarray(other.get_alpha(float(mn - span))))
+        except Exception as e:  # noqa
+            chk.violation("alpha-route-raises", f"{type(e).__name__}: {str(e)[:200]}", case); continue
+        if abs(a1 - want) > 1e-6 or abs(a2 - want) > 1e-6:
+            chk.violation("delay-to-alpha-differs-between-routes", f"delay {float(d)} in [{float(mn)}, {float(mx)}]: create() gives alpha {a1}, get_alpha() (the init_delays / params "
+                          f"route) gives {a2}, the configured delay corresponds to {want}", case)
+        elif a3 != 1.0 or a0 != 0.0:
+            chk.violation("delay-to-alpha-not-saturating", f"get_alpha above max / below min gives {a3} / {a0} (expected 1 / 0)", case)
+
+
 def run(chk, replay=None):
     chk.stage_proofs(kernels=["Interp"])
     quick = chk.tier == "quick"
@@ -388,6 +415,7 @@ def run(chk, replay=None):
                     chk.violation("grad-differs:" + sig, f"d out[{j}] / d alpha = {im['grad'][j]!r} but the model's slope is {float(mg)!r}", case)
                     break
     chk.features["grad-compared"] = ngrad
+    if not replay: alpha_routes(chk)
     chk.extra["rule"] = ("generated InputStates: window 1-4 plus extension 1-3 (rate 1-16 Hz, max-min chosen so that ceil(rate*(max-min)) = "
                          "extension), 0..all dummy entries (seq=-1, ts 0) in front, periodic or jittered send times, step start on a "
                          "knot / between / before / after, float leaf () (m,) (m,k) and int32 leaf, both linear variants; 'lattice' cases "
